@@ -37,7 +37,14 @@ CONSTANTS Configs,    \* set of [a, n, w, par, buf]: back-end, capacity, WorkerP
           MaxBurst,   \* largest publish burst
           MaxMsgs,    \* messages per behaviour
           Depth,      \* driver steps per behaviour (including the constructor)
-          Focus       \* TRUE: only Subscribe / Unsubscribe / receive on-off / Publish (membership churn, the C08 window)
+          Mode,       \* step vocabulary: "all"; "churn" = Subscribe / Unsubscribe (also redundant ones) / receive on-off /
+                      \* Publish (membership, the C08 window); "life" = Subscribe / receive on-off / Publish / Stop /
+                      \* parent cancel / Wait (progress and shutdown)
+          Aware,      \* TRUE: the configuration is part of the scenario (and of the view): scenario classes that exist
+                      \* only for some configurations - event loop held up by a full blocking distributor, several
+                      \* workers sending into buffered subscription channels - are enumerated per configuration
+          Holds       \* subset of BOOLEAN: TRUE = the dispatcher is held at the yield point pubsub.wait.before-cond-wait
+                      \* (between its emptiness check and its park) while the first step - Stop or parent cancel - runs
 
 Backends == {<<"chan", 0>>, <<"chan", 1>>, <<"queue", 0>>, <<"queue", 1>>, <<"deque", 0>>, <<"deque", 1>>,
              <<"nbdeque", 1>>, <<"lifo", 1>>}
@@ -49,9 +56,15 @@ StepConfigs == {c \in AllConfigs : c.a \in {"deque", "nbdeque", "lifo"} => c.w =
 \* the configurations for which all of C08 is judged (DESIGN 5.0)
 LosslessConfigs == {c \in StepConfigs : Lossless(c.a, c.n, c.buf)}
 OneConfig == {[a |-> "queue", n |-> 0, w |-> 1, par |-> FALSE, buf |-> 0]}
+\* lossless configurations whose distributor blocks the event loop when full: the loop can be kept busy
+BusyConfigs == {c \in LosslessConfigs : c.a = "chan" /\ ~c.par}
+\* buffered subscription channels with several dispatch workers
+BufferedConfigs == {c \in StepConfigs : c.buf = 1 /\ c.w = 2 /\ c.a \in {"chan", "queue"} /\ c.n = 0}
+\* distributors whose Receive parks on a condition variable (the yield point exists)
+CondConfigs == {c \in StepConfigs : c.buf = 0 /\ ~c.par /\ c.a \in {"queue", "deque", "nbdeque"}}
 
-VARIABLES cfg, sub, reading, backlog, atrisk, changes, down, waits, recent, nmsg, hist
-vars == <<cfg, sub, reading, backlog, atrisk, changes, down, waits, recent, nmsg, hist>>
+VARIABLES cfg, sub, reading, backlog, atrisk, changes, redundant, queued, regbusy, pubreg, tail, held, down, waits, recent, nmsg, hist
+vars == <<cfg, sub, reading, backlog, atrisk, changes, redundant, queued, regbusy, pubreg, tail, held, down, waits, recent, nmsg, hist>>
 
 \* edge coverage up to renaming of subscribers; message numbers and ids are irrelevant for enabling.  The
 \* configuration is not part of the view: scenarios are generated once and the check driver pairs each
@@ -59,16 +72,25 @@ vars == <<cfg, sub, reading, backlog, atrisk, changes, down, waits, recent, nmsg
 \* ParallelDispatch x WorkerPoolSize x BufferSize combination runs every scenario class.
 Count(st) == Cardinality({s \in Subs : sub[s] = st})
 LastKind == IF recent = {} THEN "none" ELSE (CHOOSE r \in recent : \A q \in recent : q.id <= r.id).kind
-view == <<Count("on"), Count("off") > 0, Cardinality(reading) > 0,
-          \E s \in Subs : sub[s] # "none" /\ s \notin reading, backlog,
-          \E s \in atrisk : sub[s] = "off", \E s \in atrisk : sub[s] = "on", changes, down, waits > 0, LastKind>>
+baseview == <<Count("on"), Count("off") > 0, Cardinality(reading) > 0,
+              \E s \in Subs : sub[s] # "none" /\ s \notin reading, backlog,
+              \E s \in atrisk : sub[s] = "off", \E s \in atrisk : sub[s] = "on", changes, redundant > 0, down, waits > 0, LastKind>>
+\* the event loop is held up: a subscriber that does not receive holds every worker, the distributor is full and
+\* the loop itself holds one more message in dist.Send (blocking distributors only)
+Busy == /\ cfg.a \in {"chan", "deque"} /\ (cfg.a = "deque" => cfg.n > 0)
+        /\ down = "no" /\ \E s \in Subs : sub[s] # "none" /\ s \notin reading
+        /\ queued >= cfg.w + cfg.n + 1
+\* pubreg: publishers with a Publish issued after such a Subscribe (several of them pending at once give the
+\* event loop's select a choice between the buffered registration and more than one publication)
+view == IF Aware THEN <<cfg, baseview, Busy, regbusy # {}, Cardinality(pubreg), tail, held>> ELSE <<baseview>>
 
-Rec(op, a, n) == [op |-> op, a |-> a, n |-> n, w |-> 0, par |-> FALSE, buf |-> 0]
+Rec(op, a, n) == [op |-> op, a |-> a, n |-> n, w |-> 0, par |-> FALSE, buf |-> 0, h |-> FALSE]
 
-Init == \E c \in Configs :
+Init == \E c \in Configs, h \in Holds :
           /\ cfg = c /\ sub = [s \in Subs |-> "none"] /\ reading = {} /\ backlog = 0 /\ atrisk = {} /\ changes = "fresh"
+          /\ redundant = 0 /\ queued = 0 /\ regbusy = {} /\ pubreg = {} /\ tail = 0 /\ held = h
           /\ down = "no" /\ waits = 0 /\ recent = {} /\ nmsg = 0
-          /\ hist = <<[op |-> "new", a |-> c.a, n |-> c.n, w |-> c.w, par |-> c.par, buf |-> c.buf]>>
+          /\ hist = <<[op |-> "new", a |-> c.a, n |-> c.n, w |-> c.w, par |-> c.par, buf |-> c.buf, h |-> h]>>
 
 Id == Len(hist) + 1
 Do(op, a, n) == hist' = Append(hist, Rec(op, a, n))
@@ -89,80 +111,122 @@ Changed(k) == CASE changes = "fresh" -> "fresh"
                 [] changes = k -> k
                 [] OTHER -> "both"
 
-Subscribe(s, x) == /\ sub[s] = "none"
+\* every step releases a held dispatcher (the harness disarms the yield point after the step)
+Rel == held' = FALSE
+Cap6(n) == IF n > 6 THEN 6 ELSE n
+
+Subscribe(s, x) == /\ sub[s] = "none" /\ ~held
                    /\ sub' = IF x THEN sub ELSE [sub EXCEPT ![s] = "on"]
                    /\ changes' = IF x THEN changes ELSE Changed("sub")
+                   \* issued while the event loop is held up: does the call return before the registration takes effect?
+                   /\ regbusy' = IF ~x /\ Busy THEN regbusy \cup {s} ELSE regbusy
                    /\ Do(IF x THEN "xsub" ELSE "sub", s, 0)
                    /\ IF x THEN Forget ELSE Remember("sub")
-                   /\ UNCHANGED <<cfg, reading, backlog, atrisk, down, waits, nmsg>>
+                   /\ Rel /\ UNCHANGED <<cfg, reading, backlog, atrisk, redundant, queued, pubreg, tail, down, waits, nmsg>>
 
-Unsubscribe(s, x) == /\ sub[s] = "on"
+\* Unsubscribe of a subscribed channel, or - redundant - of one that was unsubscribed before
+Unsubscribe(s, x) == /\ sub[s] \in {"on", "off"} /\ ~held
+                     /\ sub[s] = "off" => (Mode = "churn" /\ redundant < 2 /\ ~x)
                      /\ sub' = [sub EXCEPT ![s] = "off"]
                      /\ changes' = Changed("unsub")
+                     /\ redundant' = IF sub[s] = "off" THEN redundant + 1 ELSE redundant
                      /\ Do(IF x THEN "xunsub" ELSE "unsub", s, 0)
                      /\ IF x THEN Forget ELSE Remember("unsub")
-                     /\ UNCHANGED <<cfg, reading, backlog, atrisk, down, waits, nmsg>>
+                     /\ Rel /\ UNCHANGED <<cfg, reading, backlog, atrisk, queued, regbusy, pubreg, tail, down, waits, nmsg>>
 
-ReadOn(s) == /\ Holder(s) /\ s \notin reading
+\* Unsubscribe of a channel the broker never handed out ("stray") or of nil (what a failed Subscribe returns):
+\* membership operations are idempotent set operations, so this must change nothing for anybody
+UnsubStray(k) == /\ Mode = "churn" /\ redundant < 2 /\ ~held
+                 /\ redundant' = redundant + 1
+                 /\ changes' = Changed("unsub")
+                 /\ Do(k, "", 0) /\ Forget
+                 /\ Rel /\ UNCHANGED <<cfg, sub, reading, backlog, atrisk, queued, regbusy, pubreg, tail, down, waits, nmsg>>
+
+\* once every registered subscriber receives, the workers and the event loop get going again (a subscriber whose
+\* registration is still waiting behind the held-up loop does not hold up anybody)
+Flows(rd) == \A t \in Subs : (Holder(t) /\ t \notin regbusy) => t \in rd
+ReadOn(s) == /\ Holder(s) /\ s \notin reading /\ ~held
              /\ reading' = reading \cup {s} /\ backlog' = Drain(reading \cup {s})
              /\ atrisk' = IF Drain(reading \cup {s}) = 0 THEN {} ELSE atrisk
+             /\ queued' = IF Flows(reading \cup {s}) THEN 0 ELSE queued
+             /\ regbusy' = IF Flows(reading \cup {s}) THEN {} ELSE regbusy
+             /\ pubreg' = IF Flows(reading \cup {s}) THEN {} ELSE pubreg
+             \* the held-up publications are let loose; the scenario is over when everybody receives
+             /\ tail' = IF Drain(reading \cup {s}) = 0 THEN 0
+                        ELSE IF Flows(reading \cup {s}) /\ pubreg # {} THEN Cardinality(pubreg) ELSE tail
              /\ Do("readon", s, 0) /\ Forget
-             /\ UNCHANGED <<cfg, sub, changes, down, waits, nmsg>>
+             /\ Rel /\ UNCHANGED <<cfg, sub, changes, redundant, down, waits, nmsg>>
 
-ReadOff(s) == /\ s \in reading
+ReadOff(s) == /\ s \in reading /\ ~held
               /\ reading' = reading \ {s}
               /\ Do("readoff", s, 0) /\ Forget
-              /\ UNCHANGED <<cfg, sub, backlog, atrisk, changes, down, waits, nmsg>>
+              /\ Rel /\ UNCHANGED <<cfg, sub, backlog, atrisk, changes, redundant, queued, regbusy, pubreg, tail, down, waits, nmsg>>
 
-Publish(p, b, x) == /\ nmsg + b <= MaxMsgs
+Publish(p, b, x) == /\ nmsg + b <= MaxMsgs /\ ~held
                     /\ nmsg' = nmsg + b
                     /\ changes' = IF x THEN changes ELSE "none"
                     /\ backlog' = IF Slow /\ down = "no" THEN (IF backlog + b > 2 THEN 2 ELSE backlog + b) ELSE backlog
+                    /\ queued' = IF Slow /\ down = "no" /\ ~x THEN Cap6(queued + b) ELSE queued
+                    /\ pubreg' = (IF ~x /\ regbusy # {} THEN pubreg \cup {p} ELSE pubreg)
+                    /\ tail' = tail
                     \* subscribers for which an accepted message may still be waiting behind a slow one
                     /\ atrisk' = IF Slow /\ down = "no" /\ ~x THEN atrisk \cup {s \in Subs : sub[s] = "on"} ELSE atrisk
                     /\ Do(IF x THEN "xpub" ELSE "pub", p, b)
                     /\ IF x THEN Forget ELSE Remember("pub")
-                    /\ UNCHANGED <<cfg, sub, reading, down, waits>>
+                    /\ Rel /\ UNCHANGED <<cfg, sub, reading, redundant, regbusy, down, waits>>
 
-Stats(x) == /\ Do(IF x THEN "xstats" ELSE "stats", "", 0)
+Stats(x) == /\ ~held /\ Do(IF x THEN "xstats" ELSE "stats", "", 0)
             /\ IF x THEN Forget ELSE Remember("stats")
-            /\ UNCHANGED <<cfg, sub, reading, backlog, atrisk, changes, down, waits, nmsg>>
+            /\ Rel /\ UNCHANGED <<cfg, sub, reading, backlog, atrisk, changes, redundant, queued, regbusy, pubreg, tail, down, waits, nmsg>>
 
-Wait == /\ waits < 2 /\ waits' = waits + 1
+Wait == /\ waits < 2 /\ waits' = waits + 1 /\ ~held
         /\ Do("wait", "", 0) /\ Remember("wait")
-        /\ UNCHANGED <<cfg, sub, reading, backlog, atrisk, changes, down, nmsg>>
+        /\ Rel /\ UNCHANGED <<cfg, sub, reading, backlog, atrisk, changes, redundant, queued, regbusy, pubreg, tail, down, nmsg>>
 
 Stop == /\ down # "stop" /\ down' = "stop" /\ backlog' = 0 /\ atrisk' = {}
+        /\ queued' = 0 /\ regbusy' = {} /\ pubreg' = {} /\ tail' = 0
         /\ Do("stop", "", 0) /\ Forget
-        /\ UNCHANGED <<cfg, sub, reading, changes, waits, nmsg>>
+        /\ Rel /\ UNCHANGED <<cfg, sub, reading, changes, redundant, waits, nmsg>>
 
 CancelParent == /\ down = "no" /\ down' = "parent" /\ backlog' = 0 /\ atrisk' = {}
+                /\ queued' = 0 /\ regbusy' = {} /\ pubreg' = {} /\ tail' = 0
                 /\ Do("cancelparent", "", 0) /\ Forget
-                /\ UNCHANGED <<cfg, sub, reading, changes, waits, nmsg>>
+                /\ Rel /\ UNCHANGED <<cfg, sub, reading, changes, redundant, waits, nmsg>>
 
 \* cancel the context of an earlier call (if that call has returned meanwhile this is a no-op)
-Cancel(r) == /\ r \in recent
+Cancel(r) == /\ r \in recent /\ ~held
              /\ recent' = {q \in recent : q.id >= Id - 3} \ {r}
              /\ Do("cancel", "", r.id)
-             /\ UNCHANGED <<cfg, sub, reading, backlog, atrisk, changes, down, waits, nmsg>>
+             /\ Rel /\ UNCHANGED <<cfg, sub, reading, backlog, atrisk, changes, redundant, queued, regbusy, pubreg, tail, down, waits, nmsg>>
 
-Step == \/ \E s \in Subs, x \in BOOLEAN : (Focus => ~x) /\ (Subscribe(s, x) \/ Unsubscribe(s, x))
-        \/ \E s \in Subs : ReadOn(s) \/ ReadOff(s)
+Churn == \/ \E s \in Subs : Unsubscribe(s, FALSE)
+         \/ \E k \in {"unsubnil", "unsubstray"} : UnsubStray(k)
+Life == Wait \/ Stop \/ CancelParent
+Rest == \/ \E s \in Subs : Subscribe(s, TRUE) \/ Unsubscribe(s, TRUE)
+        \/ \E p \in Pubs : Publish(p, 1, TRUE)
+        \/ \E x \in BOOLEAN : Stats(x)
+        \/ \E r \in recent : Cancel(r)
+Step == \/ \E s \in Subs : Subscribe(s, FALSE) \/ ReadOn(s) \/ ReadOff(s)
         \/ \E p \in Pubs, b \in 1..MaxBurst : Publish(p, b, FALSE)
-        \/ ~Focus /\ \/ \E p \in Pubs : Publish(p, 1, TRUE)
-                     \/ \E x \in BOOLEAN : Stats(x)
-                     \/ Wait \/ Stop \/ CancelParent
-                     \/ \E r \in recent : Cancel(r)
+        \/ (Mode \in {"all", "churn"} /\ Churn)
+        \/ (Mode \in {"all", "life"} /\ Life)
+        \/ (Mode = "all" /\ Rest)
 
 Next == Len(hist) < Depth /\ Step
 Spec == Init /\ [][Next]_vars
 
-Inv == /\ atrisk \subseteq {s \in Subs : Holder(s)}
+Inv == /\ redundant \in 0..2 /\ queued \in 0..6 /\ regbusy \subseteq Subs /\ pubreg \subseteq Pubs /\ tail \in 0..Cardinality(Pubs)
+       /\ atrisk \subseteq {s \in Subs : Holder(s)}
        /\ reading \subseteq {s \in Subs : Holder(s)}
        /\ backlog \in 0..2 /\ nmsg <= MaxMsgs
        /\ \A r \in recent : r.id <= Len(hist) /\ hist[r.id].op \in {"sub", "unsub", "pub", "stats", "wait"}
 
 EmitAll == Len(hist) < Depth \/ PrintT(<<"BEH", ToJson(hist)>>)
 EmitEdge == PrintT(<<"BEH", ToJson(hist')>>)
+\* only complete scenarios of the held-up kind: a Subscribe was issued while the event loop was held up and now
+\* every holder of a subscription receives (the point at which everything owed must have arrived); their
+\* prefixes are judged on the way at every quiescent point
+EmitBusyEdge == ((regbusy # {} \/ tail > 0) /\ \A t \in Subs : sub'[t] # "none" => t \in reading')
+                  => PrintT(<<"BEH", ToJson(hist')>>)
 EmitConfigs == PrintT(<<"CFGS", ToJson(StepConfigs)>>) /\ PrintT(<<"LOSSLESS", ToJson(LosslessConfigs)>>)
 =============================================================================
